@@ -339,7 +339,11 @@ def judge(ctx, case):
         if k2 != 'ok':
             report(ctx, case, 'oneshot:%s' % (k2 if k2 == 'steps' else 'exception:' + type(o2).__name__), {'detail': repr(o2)})
         elif o2 != ref.block(src[:total]):
-            report(ctx, case, 'oneshot:' + (ref.classify_blocked(o2, src[:total]) or 'extra_fill_block'), {'total': total})
+            why = ref.classify_blocked(o2, src[:total])
+            if why:
+                report(ctx, case, 'oneshot:' + why, {'total': total})
+            else:       # the trailing all-fill block is optional for the one-shot function as well (the statement's last clause)
+                ctx.count('one-shot outputs that end with the optional all-fill block')
         ctx.count('block_1014 calls')
         ctx.case_done(['h', writes, fin, case.get('content')], nontrivial=total > 0)
         if ok:
@@ -362,8 +366,11 @@ def judge(ctx, case):
                 report(ctx, narrowed, 'oneshot:%s' % (k2 if k2 == 'steps' else 'exception:' + type(o2).__name__),
                        {'detail': repr(o2)})
             elif o2 != ref.block(_CODED[:total]):
-                report(ctx, narrowed, 'oneshot:' + (ref.classify_blocked(o2, _CODED[:total]) or 'extra_fill_block'),
-                       {'total': total})
+                why = ref.classify_blocked(o2, _CODED[:total])
+                if why:
+                    report(ctx, narrowed, 'oneshot:' + why, {'total': total})
+                else:
+                    ctx.count('one-shot outputs that end with the optional all-fill block')
     ctx.case_done(nontrivial=True, enumerated=True, n=hi - lo + 1 - (1 if written == 0 and lo == 0 else 0))
     if written == 0 and lo == 0:
         ctx.case_done(nontrivial=False, n=1)
